@@ -18,7 +18,7 @@
   4. `log_some`     : log q k = some l → expLe l.lo q k = true ∧ expGe l.hi q k = true
      `log_sound`    : 0 < q → log q k = some l → InRange (I.pt l.lo) → InRange (I.pt l.hi) →
                       Real.log (q·10^k) ∈ᵢ l
-  5. `expm1_sound`  : (1/64 < |x| → InRange (I.pt x)) → |x| ≤ 41/2 ∨ 1/64 < |x| → Real.exp x − 1 ∈ᵢ expm1 x
+  5. `expm1_sound`  : (1/64 < |x| → InRange (I.pt x)) → Real.exp x − 1 ∈ᵢ expm1 x
 -/
 import D128.Proofs.EnclosureConst
 import D128.Proofs.EnclosureExp
